@@ -118,6 +118,10 @@ impl Findings {
         }
         Ok(Findings { prop: ctx.prop.clone(), known, by_key: Mutex::new(BTreeMap::new()) })
     }
+    /// an empty collector (used when an engine is re-run on a single replayed case)
+    pub fn empty(prop: &str) -> Self {
+        Findings { prop: prop.to_string(), known: vec![], by_key: Mutex::new(BTreeMap::new()) }
+    }
     pub fn is_known(&self, key: &str) -> bool {
         self.known.iter().any(|k| k.key == key)
     }
